@@ -8,6 +8,8 @@ pub mod c14;
 pub mod c13;
 pub mod c15;
 pub mod c06;
+pub mod c18;
+pub mod c19;
 pub mod smoke;
 pub mod c01;
 pub mod c02;
@@ -36,6 +38,8 @@ pub fn plan(id: &str, tier: &str) -> Option<Plan> {
         "C13" => Some(Plan::new(if _t { 32 } else { 12 }, 1500)),
         "C15" => Some(Plan::new(if _t { 32 } else { 12 }, 1500)),
         "C06" => Some(Plan::new(if _t { 40 } else { 12 }, 1500)),
+        "C18" => Some(Plan::new(if _t { 40 } else { 12 }, 1500)),
+        "C19" => Some(Plan::new(if _t { 40 } else { 12 }, 1500)),
         _ => None,
     }
 }
@@ -49,6 +53,8 @@ pub fn spec(id: &str) -> Option<Spec> {
         "C13" => Some(c13::spec()),
         "C15" => Some(c15::spec()),
         "C06" => Some(c06::spec()),
+        "C18" => Some(c18::spec()),
+        "C19" => Some(c19::spec()),
         _ => None,
     }
 }
@@ -62,6 +68,8 @@ pub fn worker(ctx: &WorkerCtx) -> WorkerReport {
         "C13" => c13::worker(ctx),
         "C15" => c15::worker(ctx),
         "C06" => c06::worker(ctx),
+        "C18" => c18::worker(ctx),
+        "C19" => c19::worker(ctx),
         other => {
             let mut r = WorkerReport::default();
             r.inconclusive(format!("no worker for {}", other));
